@@ -245,5 +245,21 @@ CHECKS["C18"] = {
             "Property lookup through the component's base class is C17's subject (class graph).",
 }
 
+CHECKS["C16"] = {
+    "text": "Proofs (closed under the global context) over model/Header.v: the function-name suffixes of all bindings, gadget members and callbacks of a document come from "
+            "one UniqueNameGenerator and are pairwise distinct whatever the object ids and property names (C16_suffixes_distinct/_total, reusing C10's generator "
+            "lemmas), hence setupX/updateX/evalX are each defined once (C16_function_names_distinct); each binding has its own index, its guard word index>>5 lies inside "
+            "bindingGuard_[ceil(n/32)], the array is never zero-sized, two bindings never share a guard bit (C16_indices_distinct, C16_guard_covers, C16_guard_nonempty, "
+            "C16_guard_bits_distinct); for EVERY source string the literal written into the header is read by a C++17 lexer (model of [lex.ccon]) as exactly that string "
+            "(C16_literal_denotes_source, after the repair of F9; the previous Rust-Debug spelling is refuted: C16_rust_debug_refuted). Decision of 'valid C++' on the "
+            "real output: every emitted header is compiled with g++ -std=c++17 -fsyntax-only against API declarations generated from the same class table, and scanned "
+            "(functions defined once and every call resolves, index/guard/observer array sizes, includes, literals decoded and compared with the source strings); the "
+            "speller of the model is compared with the literals of the real headers.",
+    "technique": "Coq proofs of the self-consistency clauses and of the literal speller/lexer round trip + g++ -fsyntax-only of every emitted header against generated API declarations + token scan",
+    "design_ref": "5 C16",
+    "note": "g++ 12 decides 'valid C++'; the API declarations come from vlib/e0.py (the table the metatypes are generated from) over the hand-written runtime cxxrt/qtmock.h. "
+            "Observer-array bounds are scanned per header, not proved (no theorem about propdep's counter yet). F9 repaired by a fix: commit; F7/F8 see known findings.",
+}
+
 NOT_YET = {
 }
